@@ -136,6 +136,8 @@ type jobResult struct {
 	GlobalW     []string               `json:"global_writes,omitempty"`
 	GlobalR     []string               `json:"mutable_global_reads,omitempty"`
 	SyncUses    []string               `json:"sync_uses,omitempty"`
+	Goroutines  int                    `json:"goroutines_sequentialised,omitempty"`
+	SortAssumed bool                   `json:"long_sort_modelled_by_insertion_sort,omitempty"`
 	MapRanges   int                    `json:"map_ranges,omitempty"`
 	Funcs       []string               `json:"functions_encoded,omitempty"`
 	Notes       map[string]string      `json:"notes,omitempty"`
@@ -545,6 +547,7 @@ func runJob(j job) *jobResult {
 		rs = &runState{decisions: it.dec, initDoms: it.doms, occ: map[ssa.Instruction]int{}, ptrace: it.trace}
 		asciiKnown = map[*term]bool{}
 		onceDone = map[*value]bool{}
+		goQueue = nil
 		jsonStubs = map[string]*jsonStub{}
 		writtenFiles = nil
 		syncMaps = map[*value]*mapVal{}
@@ -608,6 +611,7 @@ func runJob(j job) *jobResult {
 			}()
 			runInits(pkg)
 			call(h, []value{argv}, nil)
+			runPendingGoroutines() // goroutines nobody waited for still run
 			if rs.pos < len(rs.decisions) {
 				panic(engineError{"recorded decision never reached"})
 			}
@@ -663,6 +667,10 @@ func runJob(j job) *jobResult {
 		res.SyncUses = append(res.SyncUses, u)
 	}
 	sort.Strings(res.SyncUses)
+	res.Goroutines = goSpawned
+	goSpawned = 0
+	res.SortAssumed = sortAssumed
+	sortAssumed = false
 	sort.Strings(res.GlobalW)
 	sort.Strings(res.GlobalR)
 	res.Sat, res.Unsat, res.Unknown = z3.nSat-sat0, z3.nUnsat-unsat0, z3.nUnk-unk0
